@@ -72,6 +72,9 @@ def spectra_for(r):
         tab.append(("several-zeros", nzv + [0.0] * (r - len(nzv))))
     if r >= 4:
         tab.append(("repeated-and-zeros", [2.0, 2.0] + [0.0] * (r - 2)))
+    if r >= 4:
+        # low rank with a graded spectrum: a range finder that does not re-orthonormalise between power iterations loses s[2]
+        tab.append(("graded-low-rank", [1.0, 1e-3, 1e-6] + [0.0] * (r - 3)))
     tab.append(("zero-matrix", [0.0] * r))
     out, seen = [], set()
     for name, s in tab:
